@@ -122,6 +122,31 @@ func init() {
 		ex.mapOrderInsertion = a[0].(bool)
 		return nil
 	})
+	v("AtomicOps", func(ex *Exec, c *frame, fn *ssa.Function, a []Value) Value { return int64(ex.atomicOps) })
+	// FreezeGlobals(tag, pkgs...): every package-level variable of the named module packages (and what they
+	// reach) is frozen under tag.
+	v("FreezeGlobals", func(ex *Exec, c *frame, fn *ssa.Function, a []Value) Value {
+		o := &Owner{Tag: mustStr(a[0])}
+		sl := a[1].(Slice)
+		seen := map[interface{}]bool{}
+		for i := 0; i < sl.Len; i++ {
+			path := mustStr(sl.Arr.E[sl.Off+i].V)
+			p := ex.prog.ImportedPackage(path)
+			if p == nil {
+				panic(engineErr("FreezeGlobals: package %s not loaded", path))
+			}
+			ex.ensureInit(p)
+			for _, m := range p.Members {
+				if g, ok := m.(*ssa.Global); ok && g.Name() != "init$guard" {
+					if strings.HasPrefix(g.Name(), "verif") {
+						continue
+					}
+					ex.freeze(ex.global(g), o, seen)
+				}
+			}
+		}
+		return nil
+	})
 	v("NoOrderLemma", func(ex *Exec, c *frame, fn *ssa.Function, a []Value) Value {
 		ex.noOrderLemma = a[0].(bool)
 		return nil
